@@ -118,6 +118,10 @@ EnterForms ==
     "vol_assign_stdarray_rawptr", "vol64_assign_rawptr", "vol64_assign_arr_rawptr", "vol64_assign_stdarray_rawptr",
     "vol64_assign_rawfn", "vol64_assign_rawptr_as_long", "taint64_assign_rawptr", "invoke64_rawptr",
     "vol64_assign_foreign_ptr" }
+\* callback signatures that would hand a sandbox-supplied argument to the application unwrapped
+CbParamForms ==
+  { "register_mixed_ptr", "register_mixed_struct", "register_mixed_ref", "register_mixed_fn", "register_mixed_int_last",
+    "register_mixed_first_plain" }
 LegalForms ==
   { "taint_nullptr", "vol_assign_nullptr", "vol_assign_tainted_ptr", "vol_assign_callback", "vol_assign_callback_long", "vol_assign_callback_intp", "vol_assign_tainted_fn",
     "invoke_ok_int", "invoke_ok_tainted", "invoke_ok_nullptr", "invoke_ok_callback", "invoke_ok_opaque",
@@ -133,7 +137,8 @@ Programs ==
   {[form |-> f.name, cls |-> f.cls, cmp |-> FALSE, x |-> o, y |-> Op("", "", "")] : f \in UnaryForms, o \in Operands} \cup
   {[form |-> f.name, cls |-> f.cls, cmp |-> f.cmp, x |-> o, y |-> r] : f \in BinaryForms, o \in Operands, r \in RhsUsed} \cup
   {[form |-> n, cls |-> "enter", cmp |-> FALSE, x |-> Op("", "", ""), y |-> Op("", "", "")] : n \in EnterForms} \cup
-  {[form |-> n, cls |-> "legal", cmp |-> FALSE, x |-> Op("", "", ""), y |-> Op("", "", "")] : n \in LegalForms}
+  {[form |-> n, cls |-> "legal", cmp |-> FALSE, x |-> Op("", "", ""), y |-> Op("", "", "")] : n \in LegalForms} \cup
+  {[form |-> n, cls |-> "cbparam", cmp |-> FALSE, x |-> Op("", "", ""), y |-> Op("", "", "")] : n \in CbParamForms}
 
 (***************************************************************************)
 (* Contract on an observed program: ev = program record + verdict + rk     *)
@@ -162,6 +167,7 @@ FormAllowed(ev) ==
          \/ /\ ev.rk = "P" /\ ev.cmp /\ ev.form \in {"eq", "ne"}   \* comparison of a tainted pointer with nullptr
             /\ IsTaintedPtr(ev.x) /\ ev.y.t = "null"
     [] ev.cls = "enter" -> ev.verdict = "reject"
+    [] ev.cls = "cbparam" -> ev.verdict = "reject"           \* (C01: a callback argument stays wrapped)
     [] ev.cls = "legal" -> TRUE
     [] OTHER -> FALSE
 
